@@ -30,7 +30,9 @@ def case_to_coq(c):
         return "api_case %d %s %s %s %s" % (c["id"], C.cq_z(c.get("version", 0)), cq_resp(c["check"]),
                                             C.cq_bool(o["called"]), C.cq_str(o["header"]))
     if fam == "plusconn":
-        ws = ["(%d, %d)" % (w["worker"], w["current"]) for st in c.get("steps") or [] for w in st["writes"]]
+        # every write reached a worker that has the version NGINX is at AND the version the manager is at
+        ws = [p for st in c.get("steps") or [] for w in st["writes"]
+              for p in ("(%d, %d)" % (w["worker"], w["current"]), "(%d, %d)" % (w["worker"], w.get("expected", w["current"])))]
         return "plusconn_case %d %s" % (c["id"], C.cq_list(ws))
     if fam == "conf":
         return "conf_case %d %s %s %s" % (c["id"], C.cq_z(c.get("version", 0)), C.cq_bool(c.get("open_tracing", False)),
